@@ -148,7 +148,7 @@ func init() {
 		ID:          "C20",
 		Explanation: "RN: the option-carrying element kinds (9) and the containment edges between them (12) are computed from the descriptorpb Go types; the options interpreter's traversal (call tree of interpretFileOptions) must follow every containment edge and instantiate its per-element handler for every options kind, and so must the linker's option-name resolution (resolveReferences + package walk) — no element kind can keep uninterpreted or unresolved options after success. RNC: every integer narrowing or sign-changing conversion in the option value coercion functions is dominated by range guards that make it value-preserving (branch-sensitive dataflow over comparisons with constants). RCF: every case-folding operation in the stable compiler is in a reviewed table (Protobuf is case-sensitive).",
 		NotDecided:  "value conversion beyond range preservation, target checks, rejection parity with protoc",
-		Rules:       []func(*World){rnInterpreter, rnLinkerResolve, rncNarrowing, rcfCaseFolding},
+		Rules:       []func(*World){rnInterpreter, rnLinkerResolve, rncNarrowing, rnc2SingleRounding, rcfCaseFolding},
 	})
 	register(&Property{
 		ID:          "C22",
